@@ -13,6 +13,7 @@ label(struct func *f, struct scope *s)
 	char *name;
 	struct gotolabel *g;
 	struct block *b;
+	struct type *t;
 	unsigned long long i;
 
 	attr(NULL, 0);
@@ -24,6 +25,13 @@ label(struct func *f, struct scope *s)
 		b = mkblock("switch_case");
 		funclabel(f, b);
 		i = intconstexpr(s, true);
+		/* 6.8.4.2p5: the constant is converted to the promoted type of the controlling expression */
+		t = s->switchcases->type;
+		if (t->size < sizeof(i)) {
+			i &= (1ull << t->size * 8) - 1;
+			if (t->u.basic.issigned && i >> (t->size * 8 - 1))
+				i |= -1ull << t->size * 8;
+		}
 		switchcase(s->switchcases, i, b);
 		expect(TCOLON, "after case expression");
 		break;
